@@ -30,6 +30,7 @@ let take_list l = let (n, r) = take1 l in take_n n r
 let put_list l = List.length l :: l
 let take_text l = let (xs, r) = take_list l in (List.map n_of_int xs, r)
 let put_text t = put_list (List.map int_of_n t)
+let rec take_texts n l = if n = 0 then ([], l) else let (t, r) = take_text l in let (ts, r) = take_texts (n - 1) r in (t :: ts, r)
 
 (* ---------------- C18: history ---------------- *)
 let op_hist args =
@@ -409,7 +410,6 @@ let op_render args lib =
   | Some (_, links) ->
     [1; List.length links] @ List.concat_map put_text links
     @ List.concat_map (fun w -> match render_model kind content lib w with Some (t, _) -> put_text t | None -> []) widths
-let rec take_texts n l = if n = 0 then ([], l) else let (t, r) = take_text l in let (ts, r) = take_texts (n - 1) r in (t :: ts, r)
 let fits w out = List.for_all (fun l -> List.length (expand l) <= w) (split_nl out)
 let orc_render args lib impl =
   let (kind, r) = take1 args in let (content, r) = take_text r in let (widths, _) = take_list r in
@@ -428,6 +428,21 @@ let orc_render args lib impl =
         List.for_all (fun (w, o) -> List.for_all (fun (w', o') -> w <> w' || o = o') pairs) pairs)]
     with _ -> [("well_formed_result", false)])
   | _ -> []
+
+(* ---------------- C20: media hook ---------------- *)
+let op_hook args =
+  let (n, r) = take1 args in
+  let (hook, r) = take_texts n r in
+  let (link, r) = take_text r in
+  let (present, r) = take1 r in
+  let mt = if present <> 0 then
+      let (e, r) = take_text r in let (sup, r) = take_text r in let (sub, _) = take_text r in
+      Some { essence = e; supertype = sup; subtype = sub }
+    else None in
+  match hook_command hook link mt with
+  | Panic -> panic_marker
+  | Ok (argv, stdin) ->
+    List.length argv :: List.concat_map put_text argv @ put_text (match stdin with Some l -> l | None -> [])
 
 (* ---------------- C17: object accessors ---------------- *)
 let rec take_jv l =
@@ -477,6 +492,47 @@ let op_acc args lib =
   @ put_acc (fun (k, _) -> [match k with MPlain -> 0 | MHtml -> 1 | MMarkdown -> 1 | MGemini -> 2])
       (get_markup o key (List.map n_of_int [109;101;100;105;97;84;121;112;101]))
 
+(* objrender: json text, widths, jv encoding of the document; lib: scrubbed content, parse tree *)
+let content_key = List.map n_of_int [99;111;110;116;101;110;116]
+let media_type_key = List.map n_of_int [109;101;100;105;97;84;121;112;101]
+let objrender_model args lib w =
+  let (_doc, r) = take_text args in let (_widths, r) = take_list r in
+  let (v, _) = take_jv r in
+  let o = match v with JObj kvs -> kvs | _ -> raise (Bad_case "objrender") in
+  match get_markup o content_key media_type_key with
+  | Present (kind, content) ->
+    let tree = (match lib with [] -> [] | _ -> let (_, r) = take_text lib in r) in
+    let c = default_colors in
+    (match kind with
+     | MPlain -> Some (plain_render_with_links c content (z_of_int w))
+     | MGemini -> Some (gem_render_with_links c content (z_of_int w))
+     | MHtml | MMarkdown -> (match take_nodes tree with Some ns -> Some (render_with_links c ns (z_of_int w)) | None -> None))
+  | _ -> None
+let op_objrender args lib =
+  let (_doc, r) = take_text args in let (widths, _) = take_list r in
+  match objrender_model args lib 80 with
+  | None -> [0]
+  | Some (_, links) ->
+    [1; List.length links] @ List.concat_map put_text links
+    @ List.concat_map (fun w -> match objrender_model args lib w with Some (t, _) -> put_text t | None -> []) widths
+let orc_objrender args lib impl =
+  let (_doc, r) = take_text args in let (widths, _) = take_list r in
+  match impl with
+  | 1 :: nl :: rest ->
+    (try
+      let (_links, rest) = take_texts nl rest in
+      let (outs, _) = take_texts (List.length widths) rest in
+      let pairs = List.combine widths outs in
+      [("safe", List.for_all safe_b outs); ("neutral", List.for_all neutral_b outs); ("wf_out", List.for_all wf_text_b outs);
+       ("fits_width", List.for_all (fun (w, o) -> w < 1 || fits w o) pairs)]
+    with _ -> [("well_formed_result", false)])
+  | _ -> []
+let op_problem args = let (t, _) = take_text args in put_text (problem default_colors t)
+let orc_problem args impl =
+  match impl_text impl with
+  | Some out -> [("safe", safe_b out); ("neutral", neutral_b out); ("equals_model", op_problem args = impl)]
+  | None -> []
+
 (* ---------------- dispatch ---------------- *)
 let handlers : (string, (int list -> int list -> int list) * (int list -> int list -> int list -> (string * bool) list)) Hashtbl.t = Hashtbl.create 64
 (* handlers that use library-oracle answers (the "<id> L ..." line of the implementation run) *)
@@ -496,12 +552,15 @@ let () =
   reg "snip" op_snip orc_snip;
   reg "center" op_center (fun a i -> orc_center a i @ orc_equal op_center a i);
   reg "replacelast" op_replacelast (orc_equal op_replacelast);
-  reg "setlength" op_setlength (orc_equal op_setlength);
-  reg "scrub" op_scrub no_oracle;
+  reg "setlength" op_setlength (fun a i -> (match impl_text i with Some o -> [("safe", safe_b o)] | None -> []) @ orc_equal op_setlength a i);
+  reg "scrub" op_scrub (fun a i -> (match impl_text i with Some o -> [("safe", safe_b o); ("equals_model", op_scrub a = i)] | None -> []));
   reg "squash" op_squash no_oracle;
   reg "height" op_height no_oracle;
   reg "unitable" op_unitable no_oracle;
+  reg "hook" op_hook (orc_equal op_hook);
   regl "render" op_render orc_render;
+  regl "objrender" op_objrender orc_objrender;
+  reg "problem" op_problem orc_problem;
   reg "hex" op_hex (orc_equal op_hex);
   reg "hexsweep" op_hexsweep (orc_equal op_hexsweep);
   reg "cfg" op_cfg (orc_equal op_cfg);
